@@ -137,6 +137,15 @@ int main(int argc, char **argv) {
     seed_library(seed * 23 + lambda);
     std::string cfg;
     { char b[96]; snprintf(b, sizeof b, "%s/%s/%s%s", flavor_name(), backend_name(), lambda ? (lambda <= 80 ? "default80" : "default128") : "small-n16", args.i("detached", 0) ? "/detached-keygen" : ""); cfg = b; }
+    // CPU affinity of the process, set before the library is first used: a mask with holes (container cpusets, one CPU per SMT
+    // pair), a single CPU (every interleaving comes from preemption), or a contiguous block
+    if (args.has("affinity")) {
+        cpu_set_t set; CPU_ZERO(&set); std::stringstream as(args.s("affinity", "")); std::string t; int ncpu = 0;
+        while (std::getline(as, t, ',')) { CPU_SET(atoi(t.c_str()), &set); ncpu++; }
+        int rc = sched_setaffinity(0, sizeof set, &set);
+        out.stat(J().s("kind", "affinity").s("mask", args.s("affinity", "")).i("sched_setaffinity", rc));
+        out.cell(rc == 0 ? "affinity:" + args.s("affinity", "") : std::string("affinity:unavailable"));
+    }
     bool detached = args.i("detached", 0);
     // detached history: the main thread never touches the FFT. Keys, jobs and references are produced by a helper thread that
     // exits; an idle thread then inherits its cached stack; workers are released together by a barrier so that the first
